@@ -25,6 +25,21 @@ def gen_case(r):
     # a second document resolved afterwards with the SAME path object (a perturbed copy of
     # the first, or an independent one)
     d2 = G.twinned(r, d, 30) if r.coin(40) else G.doc(r, 3)
+    if r.pct() < 4:
+        # a part condition whose comparison is the `%` operator met with printf-style strings and mappings: for a child
+        # it is not defined for (a missing name, a non-mapping) the child is simply not selected
+        from ..terms import Leaf
+        fmt = r.choice(["%(name)d", "%(a)s", "%(k)d and %(l)s", "%d", "50%"])
+        children = [{"name": 1}, {"a": "x"}, {}, "%(who)s", 7, "%(name)d", {"k": 2}, [1], None]
+        kids = [r.choice(children) for _ in range(r.between(2, 4))]
+        if r.coin():
+            cond = Leaf("value", None, "factor_of", kwargs={"value": fmt})       # fmt % child
+        else:
+            cond = Leaf("value", None, "has_factor", kwargs={"value": r.choice([{"name": 1}, {"who": "w"}, {}, 3])})  # child % mapping
+        d = {"kids": kids, "other": 1} if r.coin() else kids
+        pre = [Prim("kids")] if isinstance(d, dict) else []
+        p = PathT(pre + [Part(r.choice(["list", "mol"]), value=cond)])
+        return d, p, d2
     return d, p, d2
 
 
